@@ -32,6 +32,7 @@ def cases(rng, tier):
     # hostile participants: several fixed walks (a third side posting unusable PAKE bodies and undecryptable bytes, with
     # and without an honest peer)
     out.extend(mc.hostile_corpus())
+    out.extend(mc.connection_corpus())
     for i in range(24 if tier == "quick" else 120):
         out.append(dict(seed=2000 + i, n=100, profile="third-alone" if i % 2 else "third"))
     for _ in range(n):
